@@ -248,6 +248,42 @@ func c28OlderPledge(m *memRig) {
 	}
 }
 
+// c28OlderRemove: the same for a removal (the canonical removal the elected
+// operator would build, referencing the fresh custodian update, stamped
+// shortly before or exactly at that update).
+func c28OlderRemove(m *memRig) {
+	if len(m.accepted()) <= 7 || m.pledging() != nil {
+		return
+	}
+	m.jumpTo(13+m.rng.IntN(6), 12*time.Hour+time.Minute-time.Duration(m.now()-m.lastChange()))
+	before := m.now()
+	m.c.Run(m.c.Q.Now + 2*time.Second)
+	if !m.custodianNow() {
+		m.r.out.Probes["variant_not_buildable:timestamp-not-after-last-operation"]++
+		return
+	}
+	m.r.out.Probes["op_mem.custodian"]++
+	last := m.ref().Node.SimLastConsensusSnapshot()
+	for _, ts := range []uint64{before + 1 + uint64(m.rng.Int64N(int64(time.Second))), last.Timestamp} {
+		elected := m.ref().Node.SimElect(common.TransactionTypeNodeRemove, ts)
+		ch := m.inj.chainFor(elected)
+		if ch == nil || ch.lastTime >= ts {
+			m.r.out.Probes["variant_not_buildable:timestamp-not-after-last-operation"]++
+			continue
+		}
+		tx, err := m.ref().Node.SimBuildRemove(elected, ts)
+		if err != nil {
+			m.r.out.Probes["variant_not_buildable:timestamp-not-after-last-operation"]++
+			continue
+		}
+		m.r.out.Probes["older_removal_offered"]++
+		refused(m, "C28", "timestamp-not-after-last-operation", m.multi(elected, []*common.VersionedTransaction{tx}, ts), "a removal stamped at or before the consensus operation it references")
+		if m.c.Halt {
+			return
+		}
+	}
+}
+
 func c28Variants(m *memRig, kind string) {
 	c := m.c
 	m.proposalShare = 0.5
@@ -297,6 +333,12 @@ func c28Variants(m *memRig, kind string) {
 	case "remove":
 		if len(m.accepted()) <= 7 || m.pledging() != nil {
 			return
+		}
+		if m.rng.Chance(0.5) {
+			c28OlderRemove(m)
+			if c.Halt {
+				return
+			}
 		}
 		m.jumpTo(13+m.rng.IntN(7), 12*time.Hour+time.Minute-time.Duration(m.now()-m.lastChange()))
 		ts := m.now()
